@@ -11,7 +11,7 @@ sys.path.insert(0, os.path.dirname(os.path.abspath(__file__)))
 from bnv import kani as K  # noqa: E402
 
 known = {f['function'] for f in json.load(open(os.path.join(K.RUN.VERIF, 'known_findings.json')))['findings']}
-hs = [h for h in K.load_harnesses() if not h.get('disabled')]
+hs = [h for h in K.load_harnesses() if not h.get('disabled') and h.get('tier') != 'cex']
 if len(sys.argv) > 1:
     hs = [h for h in hs if h['property'] in sys.argv[1:]]
 by_mode = {'dbg': [], 'rel': []}
